@@ -352,8 +352,12 @@ func (p *asyncProducer) dispatcher() {
 			p.inFlight.Add(1)
 		}
 
-		for _, interceptor := range p.conf.Producer.Interceptors {
-			msg.safelyApplyInterceptor(interceptor)
+		if msg.retries == 0 && msg.flags == 0 {
+			// only on the first pass of a message the application submitted: not when it
+			// comes back for a retry, and not for internal fin markers
+			for _, interceptor := range p.conf.Producer.Interceptors {
+				msg.safelyApplyInterceptor(interceptor)
+			}
 		}
 
 		version := 1
